@@ -242,6 +242,29 @@ void gen_foreign(Plan& p, Rng& r)
     }
 }
 
+void gen_foreign1(Plan& p, Rng& r)
+{
+    // C02 converse on schema 1.x: the independent encoder writes, the public track API reads
+    p.cfg.schema = (int)r.below(11);
+    p.cfg.on_disk = true;
+    p.cfg.checks = CK_FOREIGN;
+    p.cfg.gf.rich = r.chance(1, 2);
+    p.steps.push_back(mk("create_track", r, 0, 1));
+    if (r.chance(1, 2))
+        p.steps.push_back(mk("create_track", r, 0, 1 + (int)r.below(2)));
+    int n = 3 + (int)r.below(8);
+    for (int i = 0; i < n; ++i)
+    {
+        unsigned k = r.below(12);
+        if (k == 0)
+            p.steps.push_back(mk("reload", r, 1, 1));
+        else if (k == 1)
+            p.steps.push_back(track_step(r, 1));
+        else
+            p.steps.push_back(mk("f_write1", r, 1, draw_size(r)));
+    }
+}
+
 void gen_corrupt(Plan& p, Rng& r)
 {
     // C05: damage to stored bytes at arbitrary instants, then every reader
@@ -462,6 +485,8 @@ Plan generate_plan(const std::string& profile_in, uint64_t seed, uint64_t index)
         gen_table(p, r, true);
     else if (profile == "foreign")
         gen_foreign(p, r);
+    else if (profile == "foreign1")
+        gen_foreign1(p, r);
     else if (profile == "corrupt")
         gen_corrupt(p, r);
     else if (profile == "detect")
